@@ -257,6 +257,13 @@ impl Engine for C13 {
             });
         }
         records.truncate(batch);
+        // now and then one very long Python string (beyond 16 KiB)
+        if !records.is_empty() && rng.chance(1, 20) {
+            let i = rng.usize(0, records.len() - 1);
+            let len = rng.usize(16385, 40000);
+            let a = if mode == "cgr_batch" { Alpha::Mixed } else { Alpha::WithN };
+            records[i].seq = gen_seq(rng, len, a);
+        }
         // arbitrary unicode acts as ambiguous bytes (iterators / oligo only)
         if mode != "cgr_batch" && rng.chance(1, 4) && !records.is_empty() {
             let i = rng.usize(0, records.len() - 1);
